@@ -22,6 +22,7 @@ fn check(s: &str, bad: &mut Vec<String>, n: &mut u64) {
     // the facts behind the length validators: chars().count() is the number of chars, is_empty <=> 0 chars
     if s.is_empty() != (s.chars().count() == 0) { fail("is_empty <=> no chars"); }
     if s.to_string() != s { fail("to_string identity"); }
+    { let a: String = s.into(); let b: String = String::from(s).into(); if a != s || b != s { fail("Into<String> preserves the text"); } }
 }
 
 fn main() {
